@@ -60,6 +60,77 @@ def forFirst {α β} : List α → (α → Option β) → Option β
     | some r => some r
     | none => forFirst xs f
 
+/-- `abs(x)` -/
+def abs (x : Rat) : Rat := if x < 0 then -x else x
+
+/-- `T.items()` of a `{str: float}` table, in source order -/
+def tableItems (tbl : List (String × Dec)) : List (String × Rat) := tbl.map (fun p => (p.1, p.2.toRat))
+
+/-- python `min(it, key=f)` after the first item has been taken: the running best is replaced only by a STRICTLY
+    smaller key, so the FIRST minimal item wins -/
+def minByAux {α} (key : α → Rat) : α → List α → α
+  | best, [] => best
+  | best, e :: es => if key e < key best then minByAux key e es else minByAux key best es
+/-- `min(xs, key=f)`; `none` = ValueError on an empty sequence -/
+def minBy? {α} (xs : List α) (key : α → Rat) : Option α :=
+  match xs with
+  | [] => none
+  | e :: es => some (minByAux key e es)
+/-- `max(xs, key=f)`: the FIRST maximal item; `none` = ValueError -/
+def maxByAux {α} (key : α → Rat) : α → List α → α
+  | best, [] => best
+  | best, e :: es => if key best < key e then maxByAux key e es else maxByAux key best es
+def maxBy? {α} (xs : List α) (key : α → Rat) : Option α :=
+  match xs with
+  | [] => none
+  | e :: es => some (maxByAux key e es)
+
+/-- `[f(x) for x in xs]` where `f` may raise: the first exception ends the comprehension -/
+def listMapM? {α β} : List α → (α → Option β) → Option (List β)
+  | [], _ => some []
+  | x :: xs, f =>
+    match f x with
+    | none => none
+    | some y =>
+      match listMapM? xs f with
+      | none => none
+      | some ys => some (y :: ys)
+
+/-- python `a % b` on ints (the result has the sign of `b`); `none` = ZeroDivisionError -/
+def intMod? (a b : Int) : Option Int := if b = 0 then none else some (Int.fmod a b)
+
+/-- `for x in xs: <body updating st>` -/
+def forFold {α σ} : List α → σ → (σ → α → σ) → σ
+  | [], st, _ => st
+  | x :: xs, st, f => forFold xs (f st x) f
+/-- the same when the body may raise -/
+def forFoldM? {α σ} : List α → σ → (σ → α → Option σ) → Option σ
+  | [], st, _ => some st
+  | x :: xs, st, f =>
+    match f st x with
+    | none => none
+    | some st' => forFoldM? xs st' f
+
+/-- `enumerate(xs)` -/
+def enumerateFrom {α} : Nat → List α → List (Nat × α)
+  | _, [] => []
+  | i, x :: xs => (i, x) :: enumerateFrom (i + 1) xs
+def enumerate {α} (xs : List α) : List (Nat × α) := enumerateFrom 0 xs
+
+/-- `np.delete(arr, idx, axis=0)` for indices inside the array -/
+def npDelete {α} (arr : List α) (idx : List Nat) : List α := deleteIdx arr idx
+
+/-! insertion-ordered dicts are association lists with distinct keys -/
+
+/-- `k in d` -/
+def dictHas {κ β} [DecidableEq κ] (d : List (κ × β)) (k : κ) : Bool := d.any (fun p => p.1 = k)
+/-- `d[k] = v`: a new key goes to the end, an existing key keeps its position -/
+def dictSet {κ β} [DecidableEq κ] (d : List (κ × β)) (k : κ) (v : β) : List (κ × β) :=
+  if dictHas d k then d.map (fun p => if p.1 = k then (p.1, v) else p) else d ++ [(k, v)]
+/-- `d[k].append(x)`; `none` = KeyError -/
+def dictAppend? {κ β} [DecidableEq κ] (d : List (κ × List β)) (k : κ) (x : β) : Option (List (κ × List β)) :=
+  if dictHas d k then some (d.map (fun p => if p.1 = k then (p.1, p.2 ++ [x]) else p)) else none
+
 /-- `s[i]` (a one-character string); `none` = IndexError.  Python strings are sequences of code points. -/
 def strIndex? (s : String) (i : Nat) : Option String := s.toList[i]?.map String.singleton
 /-- `s[i:j]` for constant `0 ≤ i`, `0 ≤ j` -/
@@ -216,5 +287,135 @@ def dihedralParamsBranch (a1 : String) (a2 : String) (a3 : String) (a4 : String)
     pure (6, none)
   else
     none  -- raise
+
+/-- translated from `guess_elements_from_masses.find_element` in mofun/helpers.py; `max_delta` is read from the enclosing function; `none` = the explicit `raise` (or ValueError on an empty table) -/
+def findElement (max_delta : Rat) (elmass : Rat) : Option String := do
+  let t1 ← (Py.minBy? (Py.tableItems Mofun.Generated.atomicMasses) (fun kv => (Py.abs (kv.2 - elmass))))
+  let sym : String := t1.1
+  let mass : Rat := t1.2
+  if (Py.abs (mass - elmass)) < max_delta then
+    pure sym
+  else
+    none  -- raise
+
+/-- the default `max_delta=0.1` of `guess_elements_from_masses` -/
+def guessElementsFromMasses_default_max_delta : Rat := (Dec.toRat ⟨1, 1⟩)
+
+/-- translated from `guess_elements_from_masses` in mofun/helpers.py; `none` = the first mass without an element raises -/
+def guessElementsFromMasses (masses : List Rat) (max_delta : Rat) : Option (List String) := do
+  let t2 ← (Py.listMapM? masses (fun m => (do let t1 ← (findElement max_delta m); pure t1)))
+  pure t2
+
+/-- the default `pos=-1` of `pop` -/
+def popIndex_default_pos : Int := (-1 : Int)
+
+/-- translated from `pop` in mofun/atoms.py class Atoms: the index list handed to `__delitem__` by `del(self[[…]])`; `none` = ZeroDivisionError -/
+def popIndex (self_len : Nat) (pos : Int) : Option (List Int) := do
+  let t1 ← (Py.intMod? pos ((self_len : Nat) : Int))
+  pure [t1]
+
+/-- translated from `group_duplicates` in mofun/helpers.py; the dict is an association list in insertion order; `none` = KeyError (never raised, see the theorem); the default `key` is not translated -/
+def groupDuplicates {α κ} [DecidableEq κ] (match_indices : List α) (key : α → κ) : Option (List (κ × (List α))) := do
+  let keyed_tuples : List (κ × (List α)) := []
+  let keyed_tuples ← Py.forFoldM? match_indices keyed_tuples (fun keyed_tuples m => do
+      let mkey : κ := (key m)
+      if (!(Py.dictHas keyed_tuples mkey)) then
+        let keyed_tuples : List (κ × (List α)) := (Py.dictSet keyed_tuples mkey [m])
+        pure keyed_tuples
+      else
+        let keyed_tuples ← (Py.dictAppend? keyed_tuples mkey m)
+        pure keyed_tuples
+      )
+  pure keyed_tuples
+
+/-- the default `atol=0.05` of `mofun_cli` -/
+def mofunCliTrace_default_atol : Rat := (Dec.toRat ⟨5, 2⟩)
+
+/-- the default `replace_fraction=1.0` of `mofun_cli` -/
+def mofunCliTrace_default_replace_fraction : Rat := (Dec.toRat ⟨10, 1⟩)
+
+/-- the default `pp=False` of `mofun_cli` -/
+def mofunCliTrace_default_pp : Bool := false
+
+/-- translated from `mofun_cli` in mofun/cli/mofun_cli.py (SEQUENCING slice: the simple statements the function executes, in order, as source text with the locals renamed l1, l2, … in order of first assignment, under the guards of the `if`s; parameters: the options the guards read, the two path suffixes, and the answer of `atoms.cell_is_orthorhombic()`) -/
+def mofunCliTrace (find_path : Option String) (replace_path : Option String) (dumppath : Option String) (extract_uc_path : Option String) (chargefile : Option String) (replicate : Option (Nat × Nat × Nat)) (mic : Option Rat) (framework_element : Option String) (pp : Bool) (inputpath_suffix : String) (outputpath_suffix : String) (cell_is_orthorhombic : Bool) : List String :=
+  (if (List.contains [".lmpdat", ".cml", ".cif"] inputpath_suffix) then
+    ["atoms = Atoms.load(inputpath)"]
+  else
+    ["print('INFO: Trying input using ASE: %s' % inputpath)",
+     "atoms = Atoms.from_ase_atoms(ase.io.read(inputpath))"]) ++
+  (if (Option.isSome extract_uc_path) then
+    ["atoms.cell = Atoms.load(extract_uc_path).cell"]
+  else
+    []) ++
+  (if (Option.isSome dumppath) then
+    ["l1 = ase.io.read(dumppath, format='lammps-dump-text')",
+     "assert len(l1.positions) == len(atoms.positions)",
+     "atoms.positions = l1.positions"]
+  else
+    []) ++
+  (if (Option.isSome chargefile) then
+    ["l2 = np.array([float(l3.strip()) for l3 in chargefile if l3.strip() != ''])",
+     "assert len(l2) == len(atoms.positions)",
+     "atoms.charges = l2"]
+  else
+    []) ++
+  (if (Option.isSome replicate) then
+    ["atoms = atoms.replicate(replicate)"]
+  else
+    []) ++
+  (if (Option.isSome mic) then
+    (if cell_is_orthorhombic then
+      ["l4 = np.array(np.ceil(2 * mic / np.diag(atoms.cell)), dtype=int)",
+       "atoms = atoms.replicate(l4)"]
+    else
+      ["print('WARNING: Minimimum image convention is only implemented for orthorhombic structures, please use --replicate')"])
+  else
+    []) ++
+  (if pp then
+    ["assign_pair_params_to_structure(atoms)"]
+  else
+    []) ++
+  (if ((Option.isSome replace_path) && (Option.isNone find_path)) then
+    ["print('Cannot perform a replace operation without a find operation')"]
+  else
+    (if (Option.isSome find_path) then
+      ["l5 = Atoms.load(find_path)"] ++
+      (if (Option.isSome replace_path) then
+        ["l6 = Atoms.load(replace_path)",
+         "atoms = replace_pattern_in_structure(atoms, l5, l6, atol=atol, axisp1_idx=axisp1_idx, axisp2_idx=axisp2_idx, opoint_idx=opoint_idx, replace_fraction=replace_fraction)"]
+      else
+        ["l7 = find_pattern_in_structure(atoms, l5, atol=atol, axisp1_idx=axisp1_idx, axisp2_idx=axisp2_idx, opoint_idx=opoint_idx)",
+         "print('Found %d instances of the search_pattern in the structure' % len(l7))",
+         "print(l7)"])
+    else
+      [])) ++
+  (if (Option.isSome framework_element) then
+    ["atoms.symbols[atoms.atom_groups == 0] = framework_element"]
+  else
+    []) ++
+  (if (List.contains [".lmpdat", ".mol", ".cif"] outputpath_suffix) then
+    ["atoms.save(outputpath)"]
+  else
+    ["print('INFO: Trying output using ASE')",
+     "l8 = atoms.to_ase()"] ++
+    (if (Option.isSome framework_element) then
+      ["l8.symbols[atoms.atom_groups == 0] = framework_element"]
+    else
+      []) ++
+    ["l8.set_pbc(True)",
+     "l8.write(outputpath)"])
+
+/-- translated from `delete_if_all_in_set` in mofun/rough_uff.py; `arr` is the list of rows of the 2-D index array -/
+def deleteIfAllInSet (arr : List (List Nat)) (s : List Nat) : List (List Nat) :=
+  let deletion_list : List Nat := []
+  let deletion_list : List Nat := Py.forFold (Py.enumerate arr) deletion_list (fun deletion_list (i, tup) =>
+      if (Py.setLen (Py.setDiff tup s)) = 0 then
+        let deletion_list : List Nat := (deletion_list ++ [i])
+        deletion_list
+      else
+        deletion_list
+      )
+  (Py.npDelete arr deletion_list)
 
 end Mofun.Generated.Code
